@@ -2,6 +2,7 @@ package main
 
 import (
 	"fmt"
+	"path/filepath"
 	"go/constant"
 	"go/token"
 	"go/types"
@@ -148,6 +149,7 @@ type Exec struct {
 	specOverride map[*ssa.Function]*FuncSpec
 	initVals     map[*ssa.Package]map[*ssa.Global]Value
 	facts        map[int]bool
+	probeOpaque  map[string]bool
 	pcSubstFor   *Term
 	pcSubstMap   map[int]*Term
 	eqConst      map[int]*Term
@@ -166,6 +168,8 @@ type calleeCtx struct {
 	done    bool
 	assigns []Value
 	prove   bool
+	probe   bool // only collect the preconditions (behavior selection)
+	reqs    []*Term
 	epoch   int
 	pre     *Heap
 }
@@ -1490,6 +1494,7 @@ type LoopInfo struct {
 	keys   []string
 	names  []string
 	ord    int
+	printed bool
 }
 
 type FuncInfo struct {
@@ -1641,6 +1646,10 @@ func analyze(fn *ssa.Function) *FuncInfo {
 }
 
 func (fr *Frame) loopSpec(li *LoopInfo) *LoopSpec {
+	if os.Getenv("GOVC_DEBUG_LOOPS") != "" && !li.printed {
+		li.printed = true
+		fmt.Fprintf(os.Stderr, "LOOP %s ord=%d keys=%v\n", fr.fn, li.ord, li.keys)
+	}
 	if fr.spec == nil {
 		return nil
 	}
@@ -1784,6 +1793,9 @@ func (x *Exec) callStatic(fr *Frame, fn *ssa.Function, args []Value, bind []Valu
 	if n := len(x.calleeMode); n > 0 {
 		cm := x.calleeMode[n-1]
 		if !cm.done && cm.fn == fn {
+			if cm.probe {
+				panic(probeDone{})
+			}
 			cm.done = true
 			if cm.prove {
 				return x.proveCall(fr, cm, fn, args, pos)
@@ -2080,48 +2092,127 @@ func (x *Exec) mergeGhost(c *Term, a, b map[string][]Value) map[string][]Value {
 	return m
 }
 
-// pickBehavior selects the contract case a call site is checked against: the first case whose
-// shape clauses agree with the (concrete) lengths of the actual arguments; the first case otherwise.
+// pickBehavior selects the contract case a call site is checked against:
+//  1. cases whose shape clauses disagree with the (concrete) lengths of the actual arguments are out;
+//  2. among the rest, the first case whose preconditions are decided true by the path condition
+//     and the recorded facts (no solver call);
+//  3. otherwise the case named "total", else the first remaining one.
+// Whatever is picked, its preconditions become P obligations of the caller, so the choice can only
+// lose proofs, never gain one.
 func (x *Exec) pickBehavior(fn *ssa.Function, name string, args []Value) *FuncSpec {
 	def := x.P.specs[name]
 	bs := x.P.behaviors[name]
 	if len(bs) <= 1 {
 		return def
 	}
+	var cands, unsure []*FuncSpec
 	for _, sp := range bs {
-		if sp.NoSafety || len(sp.Shape) == 0 {
+		if sp.NoSafety {
 			continue
 		}
-		ok := true
+		ok, confirmed := true, true
 		for path, n := range sp.Shape {
 			v, found := x.resolveArgPath(fn, args, path)
 			if !found {
-				ok = false
-				break
+				continue
 			}
 			sv, isS := v.(SliceV)
 			if !isS {
-				ok = false
-				break
+				continue
 			}
-			if m, c := concreteLen(sv); !c || m != n {
+			if m, c := concreteLen(asSlice(sv)); c && m != n {
 				ok = false
 				break
+			} else if !c {
+				confirmed = false
 			}
 		}
-		if ok {
+		if ok && confirmed {
+			cands = append(cands, sp)
+		} else if ok {
+			unsure = append(unsure, sp)
+		}
+	}
+	if len(cands) == 0 {
+		// cases whose shape clauses could not be confirmed (symbolic lengths) come second
+		cands = unsure
+	}
+	if len(cands) == 0 {
+		return def
+	}
+	if len(cands) == 1 {
+		return cands[0]
+	}
+	for _, sp := range cands {
+		if x.probeRequires(fn, sp, args) {
 			return sp
 		}
 	}
-	// no shape-discriminated case fits: a case without shape clauses, if there is one
-	if len(def.Shape) > 0 {
-		for _, sp := range bs {
-			if !sp.NoSafety && len(sp.Shape) == 0 {
-				return sp
-			}
+	for _, sp := range cands {
+		if sp.Behavior == "total" {
+			return sp
 		}
 	}
-	return def
+	return cands[0]
+}
+
+type probeDone struct{}
+
+var probeCtr int
+
+// probeRequires evaluates the preconditions of a contract case on a scratch copy of the state
+// and tells whether all of them are decided true without a solver.
+func (x *Exec) probeRequires(fn *ssa.Function, sp *FuncSpec, args []Value) (ok bool) {
+	h := x.P.harnessOf[sp.Key()]
+	if h == nil {
+		return false
+	}
+	saved := x.st
+	nA, nO, nI := len(x.assumes), len(x.obls), len(x.inputs)
+	nCF, depth, ghost, nCM, nWL := len(x.curFunc), x.depth, x.ghost, len(x.calleeMode), len(x.writeLog)
+	cm := &calleeCtx{fn: fn, caller: x.funcName(), probe: true}
+	x.st = saved.fork(saved.pc)
+	x.dry++
+	defer func() {
+		r := recover()
+		x.dry--
+		x.st = saved
+		x.assumes, x.obls, x.inputs = x.assumes[:nA], x.obls[:nO], x.inputs[:nI]
+		x.curFunc, x.depth, x.ghost, x.calleeMode, x.writeLog = x.curFunc[:nCF], depth, ghost, x.calleeMode[:nCM], x.writeLog[:nWL]
+		if r != nil {
+			if _, isP := r.(probeDone); !isP {
+				if _, isU := r.(Unsupported); !isU {
+					panic(r)
+				}
+				ok = false
+				return
+			}
+		}
+		if len(cm.reqs) == 0 {
+			ok = false
+			return
+		}
+		ok = true
+		var open []*Term
+		for _, c := range cm.reqs {
+			if sc := x.underPC(c); !sc.IsTrue() {
+				ok = false
+				open = append(open, sc)
+			}
+		}
+		if !ok && x.dry == 0 && x.st != nil {
+			// not decided syntactically: one short solver query (a wrong "no" only loses the better case)
+			hyps := relevantHyps(x.assumes, x.st.pc)
+			asserts := append(append([]*Term{}, hyps...), x.st.pc, Not(And(open...)))
+			probeCtr++
+			res := Solve(Script(asserts, nil, x.probeOpaque), os.TempDir(), fmt.Sprintf("govc_probe_%d_%d", os.Getpid(), probeCtr), 3)
+			os.Remove(filepath.Join(os.TempDir(), fmt.Sprintf("govc_probe_%d_%d.smt2", os.Getpid(), probeCtr)))
+			ok = res.Verdict == "unsat"
+		}
+	}()
+	x.calleeMode = append(x.calleeMode, cm)
+	x.callFunction(h, args, nil, true)
+	return false
 }
 
 // resolveArgPath evaluates "param.Field.Field" against the actual arguments.
